@@ -3,5 +3,5 @@
 set -e
 mkdir -p /verif/build/bin
 exec g++ -std=c++11 -O1 -g -fsanitize=address,undefined -fno-sanitize-recover=all -fsanitize-recover=enum -fno-omit-frame-pointer \
-  -DTINS_VERIF_HOOKS -I/repo/include -I/verif/build/asan/include \
+  -DTINS_VERIF_HOOKS -I/repo/include -I/verif/build/asan/include -I/verif/build -I/verif/harness \
   /verif/harness/$1.cpp -o /verif/build/bin/$1 /verif/build/asan/lib/libtins.a -lpcap -lssl -lcrypto -lpthread
